@@ -153,7 +153,8 @@ def run(tier, seed):
                 acc_out = [A.text_of(A.atoms(p['nodes'])) for p in A.paras(dout)]
                 if acc_in != acc_out: fail = 'round %d: accept-all does not give the accepted view of the loaded document' % k
                 elif docrun.mark_ids(dout): fail = 'round %d: accept-all left revision marks behind' % k
-            if fail and known: ck.known(known[0], known[1], case)
+            # a round that ran into a recorded finding leaves a state the later rounds cannot be judged on (e.g. nested marks): the history ends there
+            if fail and known: ck.known(known[0], known[1], case); break
             elif fail: ck.violation('oracle', case, fail); break
         if len(recs) == len(steps): distinct.add(json.dumps(steps, sort_keys=True, default=str)[:1500])
     for (b0, steps, d) in jobs[:2]: ck.sample({'history': steps})
